@@ -2,12 +2,16 @@ import CookModel.Basic.Proto
 import CookModel.Side.Aisle
 import CookModel.Side.AisleOrig
 import CookModel.Side.AisleSink
+import CookModel.Side.AisleUtf8
 /- Line protocol for the aisle model (C11).
    aisle <text>               → ok {C <name> {I<k> <n1> … <nk>}} | err <kind> … | panic
    aisle_rt <text>            → noparse | rt <written text> same|diff|err
    aisle_lookup <text> <name> → noparse | none | some <name> <common> <category>
    aisle_sink <text> <perCall> <cap> → noparse | ok <bytes> | werr <bytes>   (`write` into a destination that accepts
                                  at most perCall bytes per call and cap in all; bytes = what it holds afterwards)
+   utf8_enc <text>            → <bytes>                    (`str::as_bytes`, `utf8Encode` of Side/AisleUtf8.lean)
+   utf8_dec <bytes>           → err | ok <text>            (`std::str::from_utf8`, `utf8Decode`; bytes = comma separated
+                                 decimal values < 256, `-` for none)
    ws_table                   → ranges of scalar values that `isWhitespace` accepts
    ascii_ws_table             → same for `isAsciiWhitespace` -/
 namespace Cook.Driver
@@ -88,8 +92,28 @@ def aisleSinkOp : List String → Option String
       return s!"{if r.2 then "ok" else "werr"} {renderBytes r.1.out}"
   | _ => none
 
+/-- byte string argument: comma separated decimal values below 256, `-` for the empty string -/
+def parseBytes? (s : String) : Option (List UInt8) :=
+  if s = "-" then some [] else
+  (s.splitOn ",").mapM (fun p => p.toNat?.bind fun n => if n < 256 then some (UInt8.ofNat n) else none)
+
+/-- the byte level (Side/AisleUtf8.lean) -/
+def aisleUtf8Op : List String → Option String
+  | ["utf8_enc", t] => do
+    let t ← parseText? t
+    return renderBytes (utf8Encode t)
+  | ["utf8_dec", b] => do
+    let b ← parseBytes? b
+    match utf8Decode b with
+    | none => return "err"
+    | some t => return s!"ok {renderText t}"
+  | _ => none
+
 def handleAisle (toks : List String) : Option String :=
   match aisleSinkOp toks with
+  | some r => some r
+  | none =>
+  match aisleUtf8Op toks with
   | some r => some r
   | none =>
   match aisleOps parse "" toks with
